@@ -7,7 +7,7 @@ from props import _nd as N
 from props import _objs as O
 from geometry_tools import utils, hyperbolic as H, projective as P
 
-AUXK = ["polygon", "segment", "tangent"]
+AUXK = ["polygon", "segment", "tangent", "ppolygon"]
 HSHAPES = [[], [2], [2, 3]]
 OPS = ["copy", "apply", "reshape", "flatten", "index", "setitem", "stack", "combine", "astype"]
 QUERIES = {
@@ -16,6 +16,7 @@ QUERIES = {
                 "endpoint_distance", "endpoint_origin_to", "self_hyperboloid", "self_distance"],
     "tangent": ["coords", "normalized", "origin_to", "angle", "point_along", "isometry_to", "point_vector", "base_distance",
                 "self_hyperboloid", "self_distance"],
+    "ppolygon": ["p_edges", "p_vertices", "p_affine", "p_chart"],
 }
 TOL = 1e-6
 
@@ -44,9 +45,12 @@ class Hist:
 
     def __init__(self, kind, shape, n, seed):
         self.kind, self.n, self.g = kind, n, O.G(seed)
+        self.dtype = [np.complex128, np.float32, np.float64, np.complex128][int(self.g.integers(0, 4))] if kind == "ppolygon" else np.float64
+        self.tol = 2e-3 if self.dtype == np.float32 else TOL
         self.inputs = []        # caller-supplied arrays (name, array, snapshot)
         self.objs = []
         self.bad = []
+        self.nv = 4
         self.cur = self.make(tuple(shape))
         self.objs.append(self.cur)
 
@@ -56,28 +60,65 @@ class Hist:
         return arr
 
     def rescale(self, proj):
-        """another representative of the same projective points: every row times its own non-zero factor of either sign"""
+        """another representative of the same projective points: every row times its own non-zero factor of either sign (powers of two, so
+        that exactly null rows stay exactly null)"""
         g = self.g
-        f = g.uniform(0.3, 3.0, proj.shape[:-1] + (1,)) * g.choice([-1.0, 1.0], proj.shape[:-1] + (1,))
+        f = g.choice([0.25, 0.5, 1.0, 2.0, 4.0], proj.shape[:-1] + (1,)) * g.choice([-1.0, 1.0], proj.shape[:-1] + (1,))
         return proj * f
 
+    NULLS = [(1, -1, 0), (1, 0, 1), (1, 0, -1), (5, 3, 4), (5, -3, 4), (5, 4, -3), (5, -4, -3), (13, 5, 12), (13, -12, 5), (17, 8, -15), (5, 3, -4)]
+
     def pts(self, shape, ideal=False):
+        """projective rows (x0, x); ideal ones are EXACTLY null integer vectors (the where= branch of normalize), never the half-space point at infinity"""
         n, g = self.n, self.g
-        k = O.ideal(g, shape, n) if ideal else O.klein(g, shape, n)
-        return np.concatenate([np.ones(tuple(shape) + (1,)), k], axis=-1)
+        if not ideal:
+            return np.concatenate([np.ones(tuple(shape) + (1,)), O.klein(g, shape, n)], axis=-1)
+        cnt = int(np.prod(shape)) if len(shape) else 1
+        rows = np.zeros((cnt, n + 1))
+        for r in range(cnt):
+            v = self.NULLS[int(g.integers(0, len(self.NULLS)))]
+            rows[r, 0] = v[0]
+            if n == 1:
+                rows[r, 1] = -v[0]
+            else:
+                pos = g.permutation(np.arange(1, n + 1))[:2]
+                rows[r, pos[0]], rows[r, pos[1]] = v[1], v[2]
+                if rows[r, 1] == rows[r, 0]:
+                    rows[r, 1] = -rows[r, 1]
+        return rows.reshape(tuple(shape) + (n + 1,))
+
+    def inexactly_null(self, obj):
+        """some stored row is null up to rounding but not exactly (eigenvector output): one in-place normalisation multiplies it by ~1e8,
+        after which nothing computed from it is well conditioned; the in-place coordinate queries are not run on such objects"""
+        d = np.asarray(obj.proj_data, dtype=float)
+        nn = -d[..., 0] ** 2 + np.sum(d[..., 1:] ** 2, axis=-1)
+        sz = np.sum(d ** 2, axis=-1)
+        return bool(np.any((nn != 0) & (np.abs(nn) < 1e-9 * sz)))
 
     def make(self, shape):
         g, n, kind = self.g, self.n, self.kind
         shape = tuple(shape)
         style = g.random()
+        if kind == "ppolygon":
+            d = g.normal(size=shape + (self.nv, n + 1))
+            if np.iscomplexobj(np.zeros(1, dtype=self.dtype)):
+                d = d + 1j * g.normal(size=shape + (self.nv, n + 1))
+            raw = self.supply("ppolygon_proj", d.astype(self.dtype))
+            return P.Polygon(raw)
         if kind == "polygon":
             if style < 0.4:
-                k = self.supply("polygon_klein", O.klein(g, shape + (4,), n))
+                k = self.supply("polygon_klein", O.klein(g, shape + (self.nv,), n))
                 return H.Polygon(H.Point(k, model="klein"))
-            v = self.pts(shape + (4,))
-            idl = self.pts(shape + (4,), ideal=True)
-            mask = g.random(shape + (4, 1)) < 0.2                       # some ideal vertices
-            raw = self.supply("polygon_proj", self.rescale(np.where(mask, idl, v)))
+            while True:
+                v = self.pts(shape + (self.nv,))
+                idl = self.pts(shape + (self.nv,), ideal=True)
+                mask = g.random(shape + (self.nv, 1)) < 0.2                       # some ideal vertices
+                raw = np.where(mask, idl, v)
+                kk = raw[..., 1:] / raw[..., :1]
+                dist = np.linalg.norm(kk[..., :, None, :] - kk[..., None, :, :], axis=-1) + 10 * np.identity(self.nv)
+                if dist.min() > 0.1:                                        # vertices pairwise distinct (no degenerate edge)
+                    break
+            raw = self.supply("polygon_proj", self.rescale(raw))
             return H.Polygon(raw)
         if kind == "segment":
             if style < 0.3:
@@ -119,11 +160,17 @@ class Hist:
 
     def reference_aux(self, proj):
         """derived data from primary data by an independent few-line reference (not the library's _compute_aux_data)"""
-        proj = np.asarray(proj, dtype=float)
+        if self.kind in ("polygon", "ppolygon"):
+            proj = np.asarray(proj)
+            out = np.empty(proj.shape[:-1] + (2, proj.shape[-1]), dtype=proj.dtype)
+            k = proj.shape[-2]
+            for v in range(k):                                   # edge v joins vertex v and vertex v+1 (cyclically)
+                out[..., v, 0, :] = proj[..., v, :]
+                out[..., v, 1, :] = proj[..., (v + 1) % k, :]
+            return out
+        proj = np.asarray(np.real(proj), dtype=float)
         n1 = proj.shape[-1]
         J = np.diag([-1.0] + [1.0] * (n1 - 1))
-        if self.kind == "polygon":
-            return np.stack([proj, np.roll(proj, -1, axis=-2)], axis=-2)
         if self.kind == "tangent":
             p, v = proj[..., 0, :], proj[..., 1, :]
             vp = np.einsum("...i,ij,...j->...", v, J, p)
@@ -139,28 +186,64 @@ class Hist:
         return out
 
     def iso(self, shape=()):
+        if self.kind == "ppolygon":
+            T = O.invertibles(self.g, shape, self.n, np.iscomplexobj(np.zeros(1, dtype=self.dtype)))
+            return P.Transformation(np.array(T.proj_data).astype(self.dtype))
         return O.isometries(self.g, shape, self.n)
 
     # ---- the invariant
     def coherent(self, obj):
+        """stored derived data = fresh recomputation = independent reference, also as seen through the public accessors"""
         with warnings.catch_warnings():
             warnings.simplefilter("ignore")
-            fr = type(obj)(np.array(obj.proj_data, dtype=float if not np.iscomplexobj(obj.proj_data) else complex))
+            fr = type(obj)(np.array(obj.proj_data))
         if obj.aux_data is None:
-            return False
-        if tuple(np.asarray(obj.aux_data).shape[:len(obj.shape)]) != tuple(obj.shape):
-            return False
-        if not O.aux_proj_eq(self.kind, obj.aux_data, fr.aux_data, TOL):
-            return False
-        # ... and both are the derived data of the stored primary data (independent reference)
-        ref = self.reference_aux(np.real(np.asarray(obj.proj_data)))
-        return O.aux_proj_eq(self.kind, np.real(np.asarray(obj.aux_data)), ref, 1e-5)
+            return "no aux_data"
+        aux, proj = np.asarray(obj.aux_data), np.asarray(obj.proj_data)
+        if tuple(aux.shape[:len(obj.shape)]) != tuple(obj.shape):
+            return "aux shape"
+        tol = max(self.tol, 2e-3 if proj.dtype == np.float32 or aux.dtype == np.float32 else 0)
+        if not O.aux_proj_eq(self.kind, aux, fr.aux_data, tol):
+            return "aux != fresh recomputation"
+        ref = self.reference_aux(proj)
+        if not O.aux_proj_eq(self.kind, aux, ref, max(tol, 1e-5)):
+            return "aux != reference derived data"
+        # the same through the accessors a user (or the drawing code) goes through
+        with warnings.catch_warnings():
+            warnings.simplefilter("ignore")
+            try:
+                if self.kind in ("polygon", "ppolygon"):
+                    if not O.rows_proj_eq(obj.get_edges().proj_data, ref, max(tol, 1e-5)):
+                        return "get_edges() != reference edges"
+                    if not O.rows_proj_eq(obj.get_vertices().proj_data, proj, 1e-12):
+                        return "get_vertices() != vertices"
+                    if not O.rows_proj_eq(obj.edges, ref, max(tol, 1e-5)) or not O.rows_proj_eq(obj.vertices, proj, 1e-12):
+                        return "edges/vertices properties"
+                    if self.kind == "polygon" and not np.iscomplexobj(proj):
+                        ie = obj.get_edges().ideal_endpoint_coords("projective")
+                        ir = type(obj.get_edges())(np.array(ref)).ideal_endpoint_coords("projective")
+                        if not O.aux_proj_eq("segment", ie, ir, 1e-5):
+                            return "get_edges() ideal endpoints != those of the reference edges"
+                elif self.kind == "segment" and not np.iscomplexobj(proj):
+                    if not O.aux_proj_eq("segment", obj.ideal_endpoint_coords("projective"), ref, 1e-5):
+                        return "ideal_endpoint_coords() != reference"
+                    if not O.aux_proj_eq("segment", obj.geodesic().proj_data, ref, 1e-5):
+                        return "geodesic() != reference"
+                    if not O.rows_proj_eq(obj.get_endpoints().proj_data, proj, 1e-12):
+                        return "get_endpoints()"
+                elif self.kind == "tangent" and not np.iscomplexobj(proj):
+                    if not rows_pos_eq(obj.vector, ref[..., 1, :], 1e-5) or not O.rows_proj_eq(obj.point, proj[..., 0, :], 1e-12):
+                        return "vector/point accessors"
+            except Exception as e:
+                return "accessor raised %s" % type(e).__name__
+        return None
 
     def check_all(self, step, opname):
         for j, o in enumerate(self.objs):
-            if not self.coherent(o):
-                self.bad.append({"what": "aux_stale", "after": opname, "step": step, "object": j, "is_current": o is self.cur,
-                                 "expected": "aux_data ~ type(obj)(obj.proj_data).aux_data ~ reference derived data of proj_data"})
+            why = self.coherent(o)
+            if why:
+                self.bad.append({"what": "aux_stale", "why": why, "after": opname, "step": step, "object": j, "is_current": o is self.cur,
+                                 "expected": "aux_data ~ type(obj)(obj.proj_data).aux_data ~ reference derived data of proj_data, also through the accessors"})
                 return False
         for name, arr, snap in self.inputs:
             if not np.array_equal(arr, snap):
@@ -175,6 +258,8 @@ class Hist:
         cls = type(X)
         shape = tuple(X.shape)
         tot = int(np.prod(shape)) if shape else 1
+        if op in ("stack", "combine") and tot > 30:
+            op = "index"                    # keep composites small: the history goes on with a part of the object
         if op == "copy":
             Y = cls(X)
         elif op == "apply":
@@ -186,15 +271,64 @@ class Hist:
         elif op == "flatten":
             Y = X.flatten_to_unit()
         elif op == "index":
-            if not shape:
-                return True        # nothing to index: no-op
-            key = tuple(int(g.integers(0, d)) for d in shape[:int(g.integers(1, len(shape) + 1))])
-            Y = X[key if len(key) > 1 else key[0]]
-        elif op == "setitem":
-            if shape:
+            style = g.random()
+            nv = X.proj_data.shape[-2]
+            if self.kind in ("polygon", "ppolygon") and nv >= 4 and style < 0.3:
+                # keys that reach into the VERTEX axis: the result is the polygon on a sub-list of the vertices (edges must follow)
+                vk = [slice(1, None), slice(None, None, -1), slice(None, 3), [0, 2, 3], slice(None, None, 1)][int(g.integers(0, 5))]
+                key = (Ellipsis, vk, slice(None)) if g.random() < 0.5 or not shape else tuple([slice(None)] * len(shape)) + (vk,)
+                Y = X[key]
+            elif self.kind == "segment" and style < 0.15:
+                Y = X[..., ::-1, :]                 # the same segments with their endpoints exchanged
+            elif not shape:
+                if style < 0.6:
+                    return True        # nothing to index: no-op
+                Y = X[...]
+            elif style < 0.55:
                 key = tuple(int(g.integers(0, d)) for d in shape[:int(g.integers(1, len(shape) + 1))])
-                vshape = shape[len(key):]
-                key = key if len(key) > 1 else key[0]
+                Y = X[key if len(key) > 1 else key[0]]
+            elif style < 0.7:
+                lo = int(g.integers(0, shape[0]))
+                Y = X[lo:int(g.integers(lo + 1, shape[0] + 1))]
+            elif style < 0.8:
+                Y = X[::-1] if g.random() < 0.5 else X[::2]
+            elif style < 0.9:
+                Y = X[[int(t) for t in g.integers(0, shape[0], size=int(g.integers(1, 4)))]]      # fancy index (repeats allowed)
+            else:
+                Y = X[:, -1] if len(shape) > 1 else X[...]
+        elif op == "setitem":
+            if len(self.objs) > 1 and g.random() < 0.35:
+                # assign into an EARLIER object (an original of which the current one may be a copy, a reshape or a flattening, or vice versa):
+                # objects made from one another may share arrays, and none of the others may move
+                older = [o for o in self.objs if o is not X and type(o) is cls and tuple(o.shape)]
+                if older:
+                    T = older[int(g.integers(0, len(older)))]
+                    keep, self.nv = self.nv, int(np.asarray(T.proj_data).shape[-2])
+                    V = self.make(tuple(T.shape)[1:])
+                    self.nv = keep
+                    T[int(g.integers(0, T.shape[0]))] = V if g.random() < 0.5 else np.array(V.proj_data)
+                    self.objs.append(V)
+                    return self.check_all(step, "setitem_on_earlier_object")
+            if shape:
+                style = g.random()
+                if style < 0.5:
+                    key = tuple(int(g.integers(0, d)) for d in shape[:int(g.integers(1, len(shape) + 1))])
+                    vshape = shape[len(key):]
+                    key = key if len(key) > 1 else key[0]
+                elif style < 0.6:
+                    key, vshape = -int(g.integers(1, shape[0] + 1)), shape[1:]           # negative index
+                elif style < 0.75:
+                    lo = int(g.integers(0, shape[0]))
+                    hi = int(g.integers(lo + 1, shape[0] + 1))
+                    key = slice(lo, hi)                                                     # slice: a block of units, or one unit broadcast over it
+                    vshape = ((hi - lo,) + shape[1:]) if g.random() < 0.5 else shape[1:]
+                elif style < 0.9:
+                    mask = g.random(shape[0]) < 0.5
+                    mask[int(g.integers(0, shape[0]))] = True
+                    key = mask                                                              # boolean mask over the first axis
+                    vshape = ((int(mask.sum()),) + shape[1:]) if g.random() < 0.5 else shape[1:]
+                else:
+                    key, vshape = Ellipsis, (shape if g.random() < 0.5 else shape[1:])      # everything at once
             else:
                 key, vshape = Ellipsis, ()
             V = self.make(vshape)
@@ -233,7 +367,9 @@ class Hist:
         elif op == "astype":
             with warnings.catch_warnings():
                 warnings.simplefilter("ignore")
-                if g.random() < 0.5:
+                if self.kind == "ppolygon":
+                    Y = X.astype("complex128") if g.random() < 0.7 else X.astype(X.proj_data.dtype)
+                elif g.random() < 0.5:
                     Y = X.astype("float64")
                 else:
                     C = X.astype("complex128")
@@ -245,6 +381,8 @@ class Hist:
             self.bad.append({"what": "type_changed", "after": op, "got": type(Y).__name__})
             return False
         self.cur = Y
+        if self.kind in ("polygon", "ppolygon"):
+            self.nv = int(np.asarray(Y.proj_data).shape[-2])
         if Y is not X:
             self.objs.append(Y)
         return self.check_all(step, op)
@@ -269,7 +407,7 @@ class Hist:
     def unmoved(self, snap, q, step):
         osnap, isnap = snap
         for j, (o, (p0, a0)) in enumerate(zip(self.objs, osnap)):
-            if not self.same_geometry(o.proj_data, p0):
+            if not self.same_geometry(o.proj_data, p0, max(1e-9, self.tol * 1e-3)):
                 self.bad.append({"what": "query_moved_object", "query": q, "step": step, "object": j, "block": "proj",
                                  "expected": "stored rows unchanged as projective points (tangent directions: up to a positive scalar)"})
                 return False
@@ -285,6 +423,10 @@ class Hist:
 
     def query(self, q, step):
         X, g, kind = self.cur, self.g, self.kind
+        if len(self.objs) > 1 and g.random() < 0.25:
+            same = [o for o in self.objs if type(o) is type(self.cur) and (self.kind == "ppolygon" or not np.iscomplexobj(o.proj_data))]
+            if same:
+                X = same[int(g.integers(0, len(same)))]          # query an earlier object: the current one (maybe its copy) must not move either
         snap = self.snapshot()
         extra = []
         with warnings.catch_warnings():
@@ -297,17 +439,32 @@ class Hist:
                     for m in O.MODELS:
                         pts.coords(m)
                     extra.append(pts)
+                elif q == "p_edges":
+                    X.get_edges().endpoint_projective_coords()
+                elif q == "p_vertices":
+                    X.get_vertices().projective_coords()
+                elif q == "p_affine":
+                    c = int(g.integers(0, self.n + 1))
+                    if np.all(np.asarray(X.proj_data)[..., c] != 0):
+                        X.affine_coords(chart_index=c)
+                elif q == "p_chart":
+                    X.in_standard_chart()
+                elif q in ("self_hyperboloid", "self_distance") and self.inexactly_null(X):
+                    X.coords("projective")
                 elif q == "self_hyperboloid":
                     # every class here is a Point subclass: the inherited coordinate queries act on (and write into) the object's own data
                     X.coords("hyperboloid")
                     X.hyperboloid_coords()
                     X.coords("projective")
                 elif q == "self_distance":
+                    keep, self.nv = self.nv, int(np.asarray(X.proj_data).shape[-2])
                     W = self.make(tuple(X.shape))
+                    self.nv = keep
                     self.objs.append(W)
                     snap = self.snapshot()
-                    X.distance(W)
-                    W.distance(X)
+                    if not self.inexactly_null(W):
+                        X.distance(W)
+                        W.distance(X)
                 elif q == "get_edges":
                     X.get_edges().endpoint_coords("poincare")
                 elif q == "get_vertices":
@@ -405,7 +562,7 @@ def gen_hist(rng, n):
         # thorough: EVERY history of depth <= 4 over the seven operations that rewrite or re-index data (2800 per class and shape), each operation
         # followed by one query; the two value-preserving operations (copy, astype) are inserted at random positions; 3 classes x 3 shapes
         core = [o for o in OPS if o not in ("copy", "astype")]
-        for kind in AUXK:
+        for kind in AUXK[:3]:
             for shape in HSHAPES:
                 for depth in range(1, 5):
                     for ops in itertools.product(core, repeat=depth):
@@ -415,10 +572,15 @@ def gen_hist(rng, n):
                                 seq.append(rng.choice(["copy", "astype"]))
                             seq += [o, "q:" + rng.choice(QUERIES[kind])]
                         yield {"op": "history", "kind": kind, "shape": shape, "n": 2, "seed": rng.randrange(10 ** 9), "ops": seq}
+        for c in range(2400):          # projective polygons with complex / float32 / float64 data: random histories
+            seq = []
+            for _ in range(rng.randint(1, 6)):
+                seq += [rng.choice(OPS), "q:" + rng.choice(QUERIES["ppolygon"])]
+            yield {"op": "history", "kind": "ppolygon", "shape": HSHAPES[c % 3], "n": rng.choice([2, 3]), "seed": rng.randrange(10 ** 9), "ops": seq}
         return
     for c in range(n):
-        kind = AUXK[c % 3]
-        shape = HSHAPES[(c // 3) % 3]
+        kind = AUXK[c % len(AUXK)]
+        shape = HSHAPES[(c // len(AUXK)) % 3]
         depth = rng.randint(1, 8)
         seq = []
         for _ in range(depth):
@@ -434,7 +596,7 @@ def judge_hist(inp, obs, lr):
     if obs.get("bad"):
         b = obs["bad"][0]
         tags = {"what": b.get("what"), "kind": inp["kind"]}
-        for k in ("after", "op", "query", "exc", "block"):
+        for k in ("after", "op", "query", "exc", "block", "why"):
             if k in b:
                 tags[k] = b[k]
         return {"expected": b.get("expected", "derived data coherent / query leaves objects in place"), "observed": b, "tags": tags}
@@ -770,7 +932,7 @@ def clauses():
                     "after every step composite shape, proj_data and aux_data of the implementation vs the Lean state machine Obj.step / Obj.afterQuery executed over Q "
                     "(data chosen so that every square root the library takes is rational; segments with interior/ideal endpoints in every combination and representatives of either sign)"),
         Clause("history_oracle", "oracle", gen_hist, run_hist, judge_hist, site="projective.ProjectiveObject (set/copy/apply/reshape/flatten/__getitem__/__setitem__/stack/combine/astype) + queries",
-               budget={"quick": 540, "thorough": 30000},
+               budget={"quick": 320, "thorough": 30000},
                what="histories over {copy, apply, reshape, flatten, index, set item, stack, combine, astype} on polygons, segments, tangent vectors of shapes (), (2,), (2,3) "
                     "interleaved with read-only queries (random depth <= 8 in quick; in thorough EVERY history of depth <= 4 over {apply, reshape, flatten, index, set item, stack, combine} "
                     "with copy/astype inserted at random): "
